@@ -148,3 +148,203 @@ func TestVerif_C05_Incremental(t *testing.T) {
 		})
 	})
 }
+
+// The same question for trees that were DECODED (the command object a server received) and are then edited in place below the
+// root — through a nested container reached with Get, or through the pointer to a decoded scalar — without the ancestors being
+// touched: whatever the decoder remembered about the bytes it consumed, Size() of every ancestor equals what it marshals to now.
+func TestVerif_C05_DecodedThenEdited(t *testing.T) {
+	m := mon.New("C05", "decodededit")
+	defer m.Finish(t)
+	m.Rule("decodededit: a PRNG tree (objects and ECMA arrays, depth<=4, unique keys) is encoded by the reference encoder and decoded by the library; " +
+		"then 1..12 in-place edits are made at PRNG-chosen nested containers (Set of a new key, replacement of a key by a longer/shorter value, attach of a subtree) " +
+		"or decoded scalars (*String/*Number/*Boolean written through the pointer Get returned); after every edit Size() and len(MarshalBinary()) are read on every " +
+		"container on the path from the root to the edited node; oracle: equal at every step, and the final bytes decode (reference decoder) to the abstract tree " +
+		"edited in parallel; distinct = (depth of the edit, kind of edit, container kind)")
+	n := m.N(6000, 300000)
+	m.Require("evaluations", int64(n))
+	m.Require("edits_below_a_decoded_ancestor", int64(n*2))
+	m.Require("scalar_edits_through_decoded_pointer", int64(n/4))
+	mon.Parallel(n, func(w, i int) {
+		r := m.Rand("decedit", i)
+		m.Case()
+		rep := map[string]interface{}{"case": i}
+		m.Guard("amf0.decodededit", nil, func() {
+			sub := refamf0.Gen(r, refamf0.GenOpts{MaxDepth: 4, MaxWidth: 4})
+			root := &refamf0.Value{Kind: refamf0.Object, Props: []refamf0.Prop{
+				{Key: "cmd", Val: &refamf0.Value{Kind: refamf0.Object, Props: []refamf0.Prop{{Key: "app", Val: &refamf0.Value{Kind: refamf0.String, Str: "live"}}, {Key: "t", Val: sub}}}},
+				{Key: "n", Val: &refamf0.Value{Kind: refamf0.Number, Num: float64(i)}}}}
+			if r.Bool() {
+				root.Kind = refamf0.Ecma
+				root.Count = 2
+			}
+			wire := refamf0.Encode(nil, root)
+			rep["wire_hex_prefix"] = hexPrefix(wire, 64)
+			lib, err := decodeLib(wire)
+			if err != nil {
+				m.Violationf("c05:decode-error:decodededit", rep, "%v", err)
+				return
+			}
+			if lib.Size() != len(wire) {
+				m.Violationf("c05:size-ne-consumed:decodededit", rep, "Size()=%d after decoding %d bytes", lib.Size(), len(wire))
+				return
+			}
+			type getter interface {
+				Get(string) amf0.Amf0
+			}
+			type path struct {
+				abs  *refamf0.Value
+				libs []amf0.Amf0 // root .. this container
+			}
+			// containers of the decoded tree, found by walking the abstract tree and following the same keys with Get
+			var conts []path
+			var walk func(a *refamf0.Value, l amf0.Amf0, anc []amf0.Amf0)
+			walk = func(a *refamf0.Value, l amf0.Amf0, anc []amf0.Amf0) {
+				g, ok := l.(getter)
+				if !ok {
+					return
+				}
+				here := append(append([]amf0.Amf0(nil), anc...), l)
+				conts = append(conts, path{a, here})
+				for _, p := range a.Props {
+					if p.Val.Kind == refamf0.Object || p.Val.Kind == refamf0.Ecma {
+						if c := g.Get(p.Key); c != nil {
+							walk(p.Val, c, here)
+						}
+					}
+				}
+			}
+			walk(root, lib, nil)
+			edits := r.Range(1, 12)
+			for e := 0; e < edits; e++ {
+				pt := conts[r.Intn(len(conts))]
+				depth := len(pt.libs) - 1
+				cont := pt.libs[depth]
+				g := cont.(getter)
+				what := ""
+				switch op := r.Intn(4); {
+				case op == 0 && len(pt.abs.Props) > 0: // write through the pointer to a decoded scalar
+					k := r.Intn(len(pt.abs.Props))
+					pr := &pt.abs.Props[k]
+					switch v := g.Get(pr.Key).(type) {
+					case *amf0.String:
+						ns := genEditString(r)
+						*v = amf0.String(ns)
+						pr.Val = &refamf0.Value{Kind: refamf0.String, Str: ns}
+						what = "write-decoded-string"
+						m.Count("scalar_edits_through_decoded_pointer", 1)
+					case *amf0.Number:
+						*v = amf0.Number(float64(e) + 0.5)
+						pr.Val = &refamf0.Value{Kind: refamf0.Number, Num: float64(e) + 0.5}
+						what = "write-decoded-number"
+						m.Count("scalar_edits_through_decoded_pointer", 1)
+					case *amf0.Boolean:
+						*v = !*v
+						pr.Val = &refamf0.Value{Kind: refamf0.Boolean, Bool: bool(*v)}
+						what = "write-decoded-boolean"
+						m.Count("scalar_edits_through_decoded_pointer", 1)
+					default:
+						continue
+					}
+				default:
+					key := []string{"a", "b", "tcUrl", "objectEncoding", "app", "t"}[r.Intn(6)]
+					var tr *refamf0.Value
+					if r.Bool() {
+						tr = &refamf0.Value{Kind: refamf0.String, Str: genEditString(r)}
+						what = "set-string"
+					} else {
+						tr = refamf0.Gen(r, refamf0.GenOpts{MaxDepth: 2, MaxWidth: 3})
+						amfx.ZeroEcmaCounts(tr)
+						what = "set-subtree"
+					}
+					val := amfx.Build(tr)
+					switch c := cont.(type) {
+					case *amf0.Object:
+						c.Set(key, val)
+					case *amf0.EcmaArray:
+						c.Set(key, val)
+					default:
+						continue
+					}
+					replaced := false
+					for k := range pt.abs.Props {
+						if pt.abs.Props[k].Key == key {
+							old := pt.abs.Props[k].Val
+							for q := 0; q < len(conts); q++ { // containers below a replaced value are gone
+								if within(old, conts[q].abs) {
+									conts = append(conts[:q], conts[q+1:]...)
+									q--
+								}
+							}
+							pt.abs.Props[k].Val = tr
+							replaced = true
+						}
+					}
+					if !replaced {
+						pt.abs.Props = append(pt.abs.Props, refamf0.Prop{Key: key, Val: tr})
+					}
+				}
+				if depth > 0 {
+					m.Count("edits_below_a_decoded_ancestor", 1)
+				}
+				m.Classf("d%d/%s/%T", depth, what, cont)
+				// innermost first, the root last
+				for q := len(pt.libs) - 1; q >= 0; q-- {
+					b, err := pt.libs[q].MarshalBinary()
+					if err != nil {
+						m.Violationf("c05:marshal-error:decodededit", rep, "%v", err)
+						return
+					}
+					if sz := pt.libs[q].Size(); sz != len(b) {
+						m.Violationf("c05:size-ne-marshal-len:decoded-then-edited", rep, "after %s at depth %d of a decoded tree: Size()=%d on the container at depth %d but it marshals to %d bytes", what, depth, sz, q, len(b))
+						return
+					}
+				}
+			}
+			b, _ := lib.MarshalBinary()
+			got, used, err := refamf0.DecodeKeyedStrict(b)
+			if err != nil || used != len(b) || !refamf0.Equal(got, root, false) {
+				d := ""
+				if got != nil {
+					d = got.Describe()
+				}
+				m.Violationf("c05:decoded-tree-differs:decodededit", rep, "final bytes decode to %s (err=%v), edited tree is %s", d, err, root.Describe())
+			}
+			if m.WantSample() {
+				m.Sample(map[string]interface{}{"edits": edits, "final_tree": root.Describe(), "bytes": len(b)})
+			}
+		})
+	})
+}
+
+func within(top, x *refamf0.Value) bool {
+	if top == x {
+		return true
+	}
+	for _, p := range top.Props {
+		if within(p.Val, x) {
+			return true
+		}
+	}
+	return false
+}
+
+func genEditString(r *vrand.Rand) string {
+	n := r.Pick(0, 1, 7, 40, 300)
+	b := make([]byte, n)
+	for k := range b {
+		b[k] = byte('a' + r.Intn(26))
+	}
+	return string(b)
+}
+
+func hexPrefix(b []byte, n int) string {
+	if len(b) > n {
+		b = b[:n]
+	}
+	const hx = "0123456789abcdef"
+	o := make([]byte, 0, 2*len(b))
+	for _, c := range b {
+		o = append(o, hx[c>>4], hx[c&15])
+	}
+	return string(o)
+}
